@@ -145,7 +145,8 @@ def drive(tier):
 def run(tier):
     rep = Report("C12", tier)
     rep.add_mc("MC_Address", vlib.run_mc("MC_Address", cfg="MC_Address" if tier == "quick" else "MC_Address_thorough"))
-    recs = drive(tier)
+    recs, nsecond, ndiff = vlib.second_pass(drive, tier)
+    rep.cov["second_pass_calls"], rep.cov["second_pass_differing"] = nsecond, ndiff
     mm = vlib.validate("Trace_Address", recs)
     rep.apply_mismatches(recs, mm)
     nchain = chainhist.run_for(rep, "C12", tier)
